@@ -693,6 +693,42 @@ def spec_compare(res: dict, spec_answer: str) -> list[tuple[str, str]]:
     return bad
 
 
+# ---------------------------------------------------------------- exhaustive small scope (thorough tier)
+
+
+def small_exprs(size: int):
+    """every expression AST with exactly `size` nodes over {"a","b","ab",ANY} and the core operators"""
+    if size == 1:
+        yield ("str", "a")
+        yield ("str", "b")
+        yield ("str", "ab")
+        yield ("id", "ANY", None)
+        return
+    for sub in small_exprs(size - 1):
+        for op in ("opt", "rep", "rep1", "and", "not"):
+            yield (op, sub)
+    for left in range(1, size - 1):
+        for a in small_exprs(left):
+            for b in small_exprs(size - 1 - left):
+                yield ("seq", [a, b])
+                yield ("choice", [a, b])
+
+
+def small_scope(max_size: int):
+    out = []
+    for n in range(1, max_size + 1):
+        out.extend(small_exprs(n))
+    return out
+
+
+def small_inputs(alpha: str, max_len: int):
+    import itertools
+    out = [""]
+    for n in range(1, max_len + 1):
+        out.extend("".join(t) for t in itertools.product(alpha, repeat=n))
+    return out
+
+
 # ---------------------------------------------------------------- worker
 
 
@@ -749,6 +785,31 @@ def worker(job):
                 out["timeouts"].append({"group": "bundled:" + gfile, "grammar": gtext[:200], "passes": passes})
             finally:
                 signal.alarm(0)
+    if tier == "thorough" and prop in ("C01", "C03", "C04", "C02"):
+        # exhaustive small scope: every one-rule grammar with <= 4 nodes x every input of length <= 4
+        with_ws = prop in ("C04", "C02", "C01")
+        exprs = small_scope(4)
+        inputs = small_inputs("ab ", 4) if with_ws else small_inputs("ab", 4)
+        nsh = do_bundled[1] if do_bundled else NCPU
+        for j, ex in enumerate(exprs):
+            if j % nsh != shard:
+                continue
+            for variant in ((False, True) if with_ws else (False,)):
+                rules = {"r": ("", ex)}
+                if variant:
+                    rules["WHITESPACE"] = ("_", ("str", " "))
+                if not G.well_formed(rules):
+                    continue
+                gtext = G.show_grammar(rules)
+                cases = [("r", t, 0) for t in inputs if variant or " " not in t]
+                signal.alarm(60)
+                try:
+                    eval_grammar(prop, rng, "small-scope", gtext, rules, list(PASS_NAMES), cases, out)
+                    out["stats"]["small_scope_grammars"] += 1
+                except Timeout:
+                    out["timeouts"].append({"group": "small-scope", "grammar": gtext, "passes": list(PASS_NAMES)})
+                finally:
+                    signal.alarm(0)
     # ---- run the model
     answers = run_driver(out["lines"], shards=1) if out["lines"] else []
     corr, direct = [], out["direct"]
@@ -854,7 +915,7 @@ def run_prop(out: Outcome, level_when_proved: str = "proof") -> None:
     plan = PLANS[prop]
     nshards = NCPU
     per = (200 if thorough else 25) if prop != "C08" else (60 if thorough else 8)
-    jobs = [(prop, s, per, out.tier, seed(), (s, nshards) if plan["bundled"] else None) for s in range(nshards)]
+    jobs = [(prop, s, per, out.tier, seed(), (s, nshards) if (plan["bundled"] or thorough) else None) for s in range(nshards)]
     stats = collections.Counter()
     corr, direct, load_errors, timeouts = [], [], [], []
     n_corr = n_direct = 0
@@ -884,10 +945,29 @@ def run_prop(out: Outcome, level_when_proved: str = "proof") -> None:
         reported += 1
         if reported >= 3:
             break
-    for t in timeouts[:1]:
-        if reported == 0 and prop == "C07":
-            out.violation({"kind": "timeout", **t, "what": "parse() did not terminate within the time limit"})
-            reported += 1
+    for t in timeouts[:2]:
+        if reported == 0 and prop == "C07" and not t["group"].startswith("bundled:"):
+            # believed only if it reproduces with a generous limit on an otherwise idle process
+            signal.signal(signal.SIGALRM, _alarm)
+            signal.alarm(300)
+            try:
+                md = Modes(t["grammar"], t["passes"])
+                rng = random.Random(1)
+                rules_names = md.grammar_rule_names()[:3]
+                for start in rules_names:
+                    for text in ["", "a", "ab", "aab ", "abcabc", "a b a b", "#a#", "bbbbbbbb"]:
+                        for m in MODES:
+                            run_struct(md.parse[m], start, text, 0)
+                confirmed = False
+            except Timeout:
+                confirmed = True
+            except Exception:  # noqa: BLE001
+                confirmed = False
+            finally:
+                signal.alarm(0)
+            if confirmed:
+                out.violation({"kind": "timeout", **t, "what": "parse() did not terminate within 300 s"})
+                reported += 1
     if reported == 0:
         if corr:
             c = corr[0]
